@@ -2,18 +2,14 @@
 from ekw import ctrl_check
 
 PROPERTY = "C02"
-LEVEL_TEXT = ("Lean theorems over the small-step model of controller.impl.run + abstract executors (Model/Ctrl.lean): in every reachable "
-              "state, for every job, cluster, admissible heuristic choice and event order/batching, each task is named by at most one "
-              "task_sequence command, sent to a worker that exists, has nothing queued (idle in the controller implies free in the "
-              "environment) and satisfies the GPU requirement (invariant Inv1, proved by induction over steps). The clauses 'inputs "
-              "already produced / present on the target or in transfer' are monitored by the oracle on every run and are proof "
-              "obligations still open in the model (see DESIGN.md).")
-LEVEL_NOTE = ("modelled, not verified: scheduler/api.py initialize/assign(plumbing)/plan, scheduler/assign.py build_assignment + the pops of "
-              "_assignment_heuristic, controller/act.py, controller/notify.py. Abstracted as an oracle validated by the model and supplied from the real "
-              "run: which (idle worker, computable task) pairs the distance/overhead heuristics and host->component migration pick, and which "
-              "available host is the transmit source. Executors are abstract (SimBridge mirrors Env). The worker-side wait loop "
-              "(runner/entrypoint.py) is covered by the oracle of this check only through SimBridge's rule, not by a theorem.")
-TECHNIQUE = "Lean 4 invariant proof over a small-step transition system (controller micro-steps x adversarial executors) + step-by-step state correspondence with the real controller driven through SimBridge"
+LEVEL_TEXT = ("Lean theorems over the small-step system controller x abstract executors (Model/Ctrl.lean): in every reachable state, for every job, "
+              "cluster, admissible heuristic choice and event order/batching, each task is named by at most one task_sequence command (and exactly "
+              "one once its completion was seen), sent to a worker that exists, has nothing queued and satisfies the GPU requirement, with every "
+              "input already produced and present on the target host or in an outstanding transfer to it (all seven C02 monitors never fire; "
+              "InvAll). Worker side (Model/Worker.lean = runner/entrypoint.py wait loop): for every message interleaving the worker enters "
+              "execute_sequence only after a DatasetPublished notice for every required dataset (c02_worker_waits).")
+LEVEL_NOTE = ("modelled, not verified: scheduler/api.py initialize/plan, scheduler/assign.py build_assignment + the pops of _assignment_heuristic, controller/act.py act/flush_queues, controller/notify.py notify/consider_*, impl.run loop skeleton (Model/Ctrl.lean, one Lean function per Python function). Abstracted as an oracle argument validated for admissibility by the model and supplied from what the real run chose: which (idle worker, computable task) pairs the distance/overhead heuristics and host->component migration pick per round, and which `available` host is the transmit source; theorems quantify over all admissible choices. Executors are abstract (Env; SimBridge mirrors it): a dispatched task runs once its inputs are on its host and publishes outputs in index order; transmit/fetch read the source store; purge is immediate. Hypothesis WF: tasks topologically numbered, inputs duplicate-free, >=1 output per task, requested outputs exist, worker ids distinct (the generator guarantees it). Worker model: availab_ds/missing_ds/waiting_ts bookkeeping of entrypoint(), driven in-process with fake zmq/Memory; `required` is computed by the harness as the code does.")
+TECHNIQUE = "Lean 4 inductive system invariant over a small-step transition system (controller micro-steps x adversarial executors) + worker wait-loop invariant; step-by-step state correspondence with the real controller (SimBridge) and the real worker entrypoint"
 LEAN_PROPS = ["EkwVerif.Props.C02"]
 LEAN_DRIVERS = ["Ctrl"]
 RULE = ctrl_check.RULE
